@@ -771,6 +771,16 @@ impl<Front: SocketHandler> ConnectionH1<Front> {
                             // else: incomplete parse, wait for more data via READABLE
                         }
                     } else {
+                        // The request is over for the backend as well. The stream was
+                        // taken out of `backend_streams` above, so the session teardown
+                        // no longer finds it there: without this, the backend's
+                        // `active_requests` charge (read by the load-balancing
+                        // policies) was never given back for any response ending a
+                        // non-keep-alive client connection (`Connection: close`,
+                        // HTTP/1.0), and grew by one per such request forever.
+                        if let StreamState::Linked(token) = old_state {
+                            endpoint.end_stream(token, stream_id, context);
+                        }
                         return self.defer_close_for_tls_flush("response-complete");
                     }
                 }
